@@ -26,7 +26,11 @@ theorem safe_sound (tr : List Ev) (h : safe tr = true) (oracle : Nat → Bool) :
   RefTrace.safe_sound tr h oracle
 
 /-- every extracted trace passes the static check -/
-theorem all_traces_safe : ∀ p ∈ Gen.allTraces, safe p.2 = true := by decide
+theorem all_traces_safe_bool : Gen.allTraces.all (fun p => safe p.2) = true := by decide +kernel
+
+theorem all_traces_safe : ∀ p ∈ Gen.allTraces, safe p.2 = true := by
+  intro p hp
+  exact (List.all_eq_true.mp all_traces_safe_bool) p hp
 
 /-- hence none of the analysed functions dereferences a stale reference, whatever the capacities -/
 theorem no_stale_reference (name : String) (tr : List Ev) (h : (name, tr) ∈ Gen.allTraces) (oracle : Nat → Bool) :
@@ -44,7 +48,7 @@ theorem node_scalars_initialised :
 theorem fmt_fits : ∀ s ∈ Gen.fmtCallSites, 0 < s.2.2 ∧ s.2.2 + 1 ≤ Gen.fmtBufferSize := by decide
 
 /-! non-vacuity: the tables are not empty and the check does reject the canonical bad trace -/
-example : Gen.allTraces.length ≥ 15 ∧ Gen.ownedThroughBase.length ≥ 2 ∧ Gen.fmtCallSites.length ≥ 3 := by decide
+example : Gen.allTraces.length ≥ 15 ∧ Gen.ownedThroughBase.length ≥ 2 ∧ Gen.fmtCallSites.length ≥ 3 := by decide +kernel
 example : safe [.bind 0 0, .grow 0, .use 0] = false := by decide
 example : ∃ r ∈ Gen.ownedThroughBase, r.2.2.2 = true := by decide
 
